@@ -7,7 +7,27 @@ VERIF = os.path.dirname(os.path.dirname(os.path.abspath(__file__)))
 ALL = [f"C{i:02d}" for i in range(1, 21)]
 
 # pid -> (technique, level text, level note, design ref)
+RUNNER_NOTE = ("Trusted: Coq kernel + vm_compute; hand-written model Runner.v of state.py/retry_helpers.py/runner/*.py (tied to /repo "
+               "only by the correspondence run on generated scripts); scripted-world Python driver, virtual clock, hand-driven "
+               "coroutines; assumptions: time passes only in operation and sleeper, decision callbacks do not raise, "
+               "attempt_timeout_s unused, 1/64 s time grid.")
+
 CHECKS = {
+    "C01": (
+        "Coq proof (loop invariants by induction over the retry loop via a characterisation of one iteration) tied by in-Coq trace correspondence (projection: invocations)",
+        "Theorems C01_* (invocations <= max_attempts, no invocation after a non-retryable class, per-class and UNKNOWN retry "
+        "caps, fresh counters per call) hold for all configurations, outcome/timing/abort/handler environments and call "
+        "sequences of the Gallina model of the retry loop; the model's invocation trace is compared inside Coq with /repo's on "
+        "generated sequences of calls through sync and async Retry .call/.execute.",
+        RUNNER_NOTE, "DESIGN.md §4 C01",
+    ),
+    "C03": (
+        "Coq proof (iff characterisation of one loop iteration by a pure verdict function; budget/sleep iff; stop-reason soundness) tied by in-Coq trace correspondence (projection: invocations, budget, retry/terminal events, handler, sleeps, polls)",
+        "Theorems C03_* (continue iff permitted; budget asked iff static conditions; sleep iff; no backoff after the last "
+        "permitted attempt; stop reason sound) for all configurations/environments of the Gallina model; tie as C01 with the "
+        "C03 projection; the Python oracle restates the iff per failed attempt on every observed trace.",
+        RUNNER_NOTE, "DESIGN.md §4 C03",
+    ),
     "C06": (
         "Coq proof (refinement of circuit.py's pruned deques to an epoch specification by induction over histories; opening rule as iff) tied by in-Coq correspondence on breaker histories incl. exhaustive small scope",
         "Theorems C06_* hold for every breaker configuration and every monotone history of the Gallina model of circuit.py; "
@@ -67,7 +87,7 @@ def main():
             "enable": "no source hooks are needed: checks import /repo/src as it is (PYTHONPATH=/repo/src) and "
             "observe it through scripted callbacks, spies and a virtual clock; REDRESS_VERIF=1 is exported but unused",
             "baseline_off_cmd": "cd /repo && /venv/bin/python -m pytest -ra -q -p no:cacheprovider --timeout=900",
-            "source_commits": [],
+            "source_commits": ["7959b97"],
             "add_only": True,
         },
         "engines": [
